@@ -45,10 +45,11 @@ class SelectorWorld:
             if style == 'list':
                 k = weighted(rng, [('setitem', 3), ('append', 3), ('insert', 2), ('extend', 2), ('pop', 3), ('poplast', 1),
                                    ('remove', 2), ('clear', 0.5), ('replace', 1), ('assign', 3), ('assign_absent', 1),
-                                   ('assign_new', 2 if cfg['unchecked'] else 0)])
+                                   ('assign_new', 2 if cfg['unchecked'] else 0), ('reassign_view', 0.5)])
             else:
                 k = weighted(rng, [('setkey', 3), ('newkey', 3), ('update', 2), ('popkey', 3), ('pop', 1.5), ('remove', 2), ('clear', 0.5),
-                                   ('replace', 1), ('assign', 3), ('assign_absent', 1), ('assign_new', 2 if cfg['unchecked'] else 0)])
+                                   ('replace', 1), ('assign', 3), ('assign_absent', 1), ('assign_new', 2 if cfg['unchecked'] else 0),
+                                   ('reassign_view', 0.5)])
             op = {'op': k, 'i': rng.randint(0, 7)}
             if k in ('extend', 'update'):
                 op['n'] = rng.randint(0, 3)
@@ -227,7 +228,7 @@ class SelectorWorld:
                     items.insert(i, (str(o), o))
                 elif k == 'extend' and style == 'list':
                     new = [fresh() for _ in range(op['n'])]
-                    objs.extend(new)
+                    objs.extend(iter(new) if op.get('j', 0) % 2 else new)       # any iterable, also a one-shot iterator
                     items.extend((str(o), o) for o in new)
                 elif k in ('pop', 'poplast') and n and (style == 'list' or k == 'pop'):      # pop(int) is supported (no deprecation warning) on dict-declared objects too
                     i = op['i'] % n if k == 'pop' else n - 1
@@ -238,7 +239,11 @@ class SelectorWorld:
                     removed_any = True
                 elif k == 'remove' and n:
                     i = op['i'] % n
-                    objs.remove(items[i][1])
+                    victim = items[i][1]
+                    if op.get('i', 0) % 3 == 0 and victim is not None:
+                        # an equal object that is not the identical one (a string or number built afresh)
+                        victim = ''.join(list(victim)) if isinstance(victim, str) else int(str(victim))
+                    objs.remove(victim)
                     removed.append(items.pop(i)[1])
                     removed_any = True
                 elif k == 'clear':
@@ -303,6 +308,12 @@ class SelectorWorld:
                     items[:] = new
                     del unnamed[:]
                     held[0] = None
+                elif k == 'reassign_view':
+                    # the objects view assigned back to the Selector it came from: nothing changes (no aliasing, no recursion)
+                    pobj.objects = pobj.objects
+                    held[0] = None
+                    mutated = False
+                    del inconsistent[:]     # (the event of this assignment carries the view itself, unnamed objects included)
                 elif k == 'assign' and n:
                     o = items[op['i'] % n][1]
                     setattr(holder, 'sel', [o] if cfg['kind'] == 'ListSelector' else o)
